@@ -468,7 +468,10 @@ carquet_status_t carquet_batch_reader_next(
             int64_t values_read = carquet_column_read_batch(
                 col_reader, col_data->data, rows_to_read, def_levels, NULL);
 
-            if (values_read < 0) {
+            /* Every column of a batch carries the same rows: a column that
+             * delivers fewer (a later page of it could not be loaded) fails
+             * the batch instead of producing misaligned columns. */
+            if (values_read != rows_to_read) {
                 read_error = true;
                 free(def_levels);
                 continue;
